@@ -147,6 +147,41 @@ WEIRD_NAMES = ['A', 'a b', 'x-y', '1abc', '_u', 'Ünï', 'é', '€uro', 'or', '
                'semi;colon', '<tag>', 'a&b', '{', 'x' * 40, ' lead', 'trail ', '#', 'NOT', 'requires', 'Integer', 'cardinality', 'abstract', 'null']
 
 
+# Sets of distinct names that become equal (or contain one another) under the usual normalisations: removal or
+# trimming of blanks, case folding, separator replacement, quoting, escaping, Unicode normal forms, numeric
+# reading, truncation. A format that derives identifiers from names must keep the members of a set apart.
+CONFUSABLE_SETS = [
+    ['Data Base', 'DataBase', 'Data  Base', 'DataBase '],
+    [' A', 'A', 'A ', ' A '],
+    ['abc', 'ABC', 'Abc', 'aBC'],
+    ['a-b', 'a_b', 'a b', 'ab'],
+    ['q', '"q"', "'q'", chr(92) + 'q'],
+    ['\u00e9', 'e\u0301', 'e', '\u00c9'],
+    ['F1', 'F10', 'F', 'F01'],
+    ['a&b', 'a&amp;b', 'a<b', 'a&lt;b'],
+    ['1', '01', '1.0', '+1'],
+    ['a b', 'a\tb', 'a\u00a0b', 'a\u2003b'],
+    ['x' * 40, 'x' * 41, 'x' * 39 + 'y', 'x' * 20],
+    ['a/b', 'a:b', 'a|b', 'a%2Fb'],
+    ['A.B', 'A..B', 'AB', 'A_B'],
+]
+
+
+def confusable_cases(n, ok=None, fill='F%d'):
+    """name lists of length n (n >= 2): the members of each set that the format can express (ok), in two
+    arrangements, padded with placeholders."""
+    out = []
+    for cs in CONFUSABLE_SETS:
+        mem = [w for w in cs if ok is None or ok(w)]
+        if len(mem) < 2:
+            continue
+        for arr in (mem, list(reversed(mem))):
+            names = list(arr[:n])
+            names += [fill % i for i in range(len(names), n)]
+            out.append(names)
+    return out
+
+
 # -- every constraint tree of a family through one write/read cycle --------------------------------
 
 def ctc_family(ops, names, full):
